@@ -67,6 +67,7 @@ import CweModel.C13.EvalProps
 import CweModel.C13.StackProps
 import CweModel.C13.CondProps
 import CweModel.C13.JoinProps
+import CweModel.C13.EdgeProps
 
 namespace CweModel.C13
 open CweModel CweModel.IR CweModel.Itv
